@@ -217,6 +217,32 @@ def run_item(item):
                      tag, np.round(nrm[i], 4).tolist(), np.round(pts[i], 5).tolist(), int(bad.sum()), len(idx),
                      {v: float(prm_vals[v][i, 0]) for v in prm_vals}))
             return
+        # a NORMAL is perpendicular to the boundary: a small step along any tangent direction stays on the boundary
+        # (exactly for straight pieces, to second order for circles and spheres)
+        sub_n = nrm[idx]
+        if dim == 2:
+            tangents = [np.stack([-sub_n[:, 1], sub_n[:, 0]], 1)]
+        elif dim == 3:
+            ref = np.where(np.abs(sub_n[:, :1]) < 0.9, np.array([[1.0, 0.0, 0.0]]), np.array([[0.0, 1.0, 0.0]]))
+            t1 = np.cross(sub_n, ref)
+            t1 /= np.linalg.norm(t1, axis=1, keepdims=True)
+            tangents = [t1, np.cross(sub_n, t1)]
+        else:
+            tangents = []
+        for tg in tangents:
+            for sgn in (1.0, -1.0):
+                vt = dict(vals)
+                moved = pts.copy()
+                moved[idx] = pts[idx] + sgn * h * tg
+                vt[var] = moved
+                off = np.abs(G.sdf(a, vt)[idx])
+                badt = off > 0.1 * h
+                if badt.any():
+                    i = idx[np.where(badt)[0][0]]
+                    viol("C06|not-perpendicular|%s|%s" % (top_sig(a), flav),
+                         "%s: normal %s at %s is not perpendicular to the boundary: a step of %.2g along its tangent ends %.2g away from the boundary (%d of %d judged points)" % (
+                             tag, np.round(nrm[i], 4).tolist(), np.round(pts[i], 5).tolist(), h, float(off[np.where(badt)[0][0]]), int(badt.sum()), len(idx)))
+                    return
         res["outcomes"].append("%s|%s" % (name, tag))
 
     plan = BOUNDS[tier]["samplers"]
